@@ -735,10 +735,14 @@ def record_exploration(chk: Check, ex: dict, thorough: bool) -> list[dict]:
     by_status: dict[str, int] = {}
     n_border = 0
     n_declared = 0
+    n_jaxerr = 0
+    n_draws = 0
     for c, r_ in zip(sel, res):
         by_status[r_["status"]] = by_status.get(r_["status"], 0) + 1
         n_border += sum(1 for d in r_.get("draws", []) if d.get("borderline"))
         n_declared += sum(1 for d in r_.get("draws", []) if d.get("declared_tolerance_fallback"))
+        n_jaxerr += sum(1 for d in r_.get("draws", []) if d.get("status") == "jax_error")
+        n_draws += len(r_.get("draws", []))
         draws = r_.get("draws", [])
         chk.count({"stage": "exploration", "testcase": c["id"], "status": r_["status"],
                    "draws": [{k: d.get(k) for k in ("kind", "status", "inputs_digest", "worst_ratio")} for d in draws]},
@@ -748,7 +752,8 @@ def record_exploration(chk: Check, ex: dict, thorough: bool) -> list[dict]:
         "label": "EXPLORATION (not proof): ORT vs eager JAX on adversarial inputs",
         "registered_testcase_variants": ex["cases"], "eligible": ex["pool"], "selected": len(sel), "executed": done,
         "fraction_executed": round(done / max(1, ex["pool"]), 4), "draw_kinds": ex["kinds"],
-        "status_counts": by_status, "borderline_draws": n_border, "declared_tolerance_fallback_draws": n_declared,
+        "status_counts": by_status, "draws": n_draws, "borderline_draws": n_border, "declared_tolerance_fallback_draws": n_declared,
+        "draws_rejected_by_the_jax_callable": n_jaxerr,
         "workers": ex["workers"], "wall_s": ex["wall_s"],
         "tolerance": "K_D*max(|jax32-jax64|,|jax32(x)-jax32(x(1+-eps))|) + K_E*eps*|ref| + K_N*(rms terms) + K_A*eps "
                      f"with K_D={X.K_D}, K_E={X.K_E}, K_N={X.K_N}, K_A={X.K_A}; finding only beyond {X.BORDERLINE} x that; "
@@ -964,9 +969,10 @@ def exploration_findings(r: dict):
     """(key, what, replay) for each failing (draw kind, failure class) of one explored testcase."""
     cid = r.get("id") or ""
     comp = "/".join(cid.split("/")[:2])
+    prec = "f64" if r.get("f64") else "f32"
     st = r.get("status")
     if st in ("ort_load_error", "crash"):
-        yield ({"where": "exploration", "component": comp, "testcase": cid, "cls": st},
+        yield ({"where": "exploration", "component": comp, "testcase": cid, "cls": st, "precision": prec},
                f"{cid}: {st} {r.get('error', '')[:160]}", {"result": r})
         return
     seen = set()
@@ -978,7 +984,8 @@ def exploration_findings(r: dict):
                 continue
             seen.add(k)
             what = d.get("why") or d.get("error", "")
-            yield ({"where": "exploration", "component": comp, "testcase": cid, "kind": d["kind"], "cls": cls},
+            yield ({"where": "exploration", "component": comp, "testcase": cid, "kind": d["kind"], "cls": cls,
+                    "precision": prec},
                    f"{cid} [{d['kind']}, {cls}]: {what[:110]} ort={d.get('ort')} jax={d.get('jax')}",
                    {"index": r.get("index"), "draw": d,
                     "how": f"VERIF_SEED=<seed> /venv/bin/python harness/c01_explore.py {r.get('index')}"})
